@@ -90,6 +90,9 @@ CONNECT_FAIL = {
     "ceof": [EOF],
 }
 PCERT_FAULTS = ("pcert-untrusted", "pcert-mismatch")
+# a proxy certificate issued by the PRIVATE CA the caller configured for destinations only (ssl_context=): the proxy
+# leg has its own trust configuration (proxy_ssl_context, else a default context) and must refuse it
+CERT_PROXY_PRIVATE = {"id": "proxy-private-ca", "trusted": True, "domain": "private", "names": [PROXY_HOST], "ips": []}
 OCERT_FAULTS = ("ocert-untrusted", "ocert-mismatch")
 METHODS = ["GET", "POST", "GET", "POST"]  # by position in the history
 
@@ -146,6 +149,8 @@ class World(Server):
                 self.presented.setdefault(sock.sid, []).append("<no-tls-here>")
                 raise ssl.SSLError(1, "[SSL: WRONG_VERSION_NUMBER] wrong version number")
             cert = {"pcert-untrusted": CERT_PROXY_UNTRUSTED, "pcert-mismatch": CERT_PROXY_MISMATCH}.get(f, CERT_PROXY_OK)
+            if self.cfg.get("ctx") == "origin-private" and f == "pcert-untrusted":
+                cert = CERT_PROXY_PRIVATE
         else:
             # inside an established tunnel: the origin answers the handshake
             cert = {"ocert-untrusted": CERT_ORIGIN_UNTRUSTED, "ocert-mismatch": CERT_ORIGIN_MISMATCH}.get(f, CERT_ORIGIN_OK)
@@ -195,6 +200,12 @@ def run_case(cfg):
             from urllib3.util.ssl_ import create_urllib3_context
             ctx = create_urllib3_context()
             kw = {"proxy_ssl_context": ctx, "ssl_context": ctx, "proxy_assert_hostname": PROXY_HOST}
+        if cfg.get("ctx") == "origin-private":
+            # the caller pins a private CA for destinations through ssl_context= and says nothing about the proxy
+            from urllib3.util.ssl_ import create_urllib3_context
+            ctx = create_urllib3_context()
+            ctx._mc_domains = ("private", "public")
+            kw = {"ssl_context": ctx}
         pm = urllib3.ProxyManager(purl, proxy_headers=PROXY_HEADERS[cfg["ph"]],
                                   use_forwarding_for_https=cfg["fwd"], **kw)
         try:
@@ -630,19 +641,19 @@ def _shared_ctx_cases(task):
         for hist in (SHARED_CTX_HISTORIES if fat != "all" else ["K"]):
             yield {"ps": ps, "ds": ds, "fwd": fwd, "fault": fault, "fat": fat, "cok": cok, "ph": ph, "rh": rh,
                    "hf": hf, "hist": hist, "retries": False, "ctx": "shared"}
+            if fault in ("none", "pcert-untrusted"):
+                # destination trust pinned through ssl_context=, nothing said about the proxy; with the fault the
+                # proxy presents a certificate from that private CA (the server maps pcert-untrusted to it)
+                yield {"ps": ps, "ds": ds, "fwd": fwd, "fault": fault, "fat": fat, "cok": cok, "ph": ph, "rh": rh,
+                       "hf": hf, "hist": hist, "retries": False, "ctx": "origin-private"}
 
 
 QUICK_SHORT_HISTORIES = ["K", "C", "S", "KK", "CK", "SK"]
 
 
 def _hists(thorough, fat, hf):
-    """quick tier: the full history set for the plain host name; every other host form (which only changes how
-    the destination is SPELLED in CONNECT / Host / SNI) gets each server behaviour once and each kind of
-    re-connection once. thorough: full product."""
-    hs = histories(thorough, fat)
-    if thorough or hf == "name":
-        return hs
-    return [h for h in hs if h in QUICK_SHORT_HISTORIES or fat == "all"]
+    """every host form gets the full history set of its tier"""
+    return histories(thorough, fat)
 
 
 def size_of(task):
@@ -711,9 +722,14 @@ def conformance(acc):
                                 rq = REQUEST_HEADERS[rh]
                                 r = pm.request("GET", url_for(cfg, 0), headers=dict(rq) if rq else None, retries=False)
                                 status = r.status
+                                del r
                             except Exception as e:  # noqa: BLE001
                                 status = repr(e)
                             finally:
+                                # clear() only drops the pools (their finalizers close the sockets once nothing refers
+                                # to them any more): close them here so that the far end sees the EOF at once
+                                for p_ in list(pm.pools._container.values()):
+                                    p_.close()
                                 pm.clear()
                         plan.finish()
                         rec = plan.records[-1] if plan.records else None
@@ -810,8 +826,7 @@ def run(ctx):
                 "{none, proxy cert untrusted/other party's cert, CONNECT 403/407/502/garbage/EOF, origin cert untrusted/other party's cert} "
                 "x CONNECT success reply {200, 200+headers}; pruned where the truth table makes a dimension unobservable) x fault placement "
                 "{every socket, only socket 0, only socket 1%s} x proxy_headers(3) x request headers(3) x destination host form(%d) x history "
-                "(1-3 requests, after each response the server keeps alive / closes with Connection: close / closes silently; quick tier: full "
-                "history set for the plain host name, histories K,C,S,KK,CK,SK for the other host forms) x retries %s. "
+                "(1-3 requests, after each response the server keeps alive / closes with Connection: close / closes silently) x retries %s. "
                 "A case is non-trivial when at least one message or TLS set-up reached the proxy endpoint; distinct = distinct "
                 "(row, per-socket wire transcript + TLS set-ups + outcomes)" % (
                     ", only socket 2" if ctx.thorough else "", len(HOSTFORMS) if ctx.thorough else len(QUICK_HOSTFORMS),
